@@ -364,9 +364,8 @@ def parse(text: str) -> Program:
     prog = Program(0, instrs, labels, label_lines, lines, pragmas)
     prog.comments = comments
     for ln, line in enumerate(lines):
-        if "\r" in line:
-            # the assembler splits on \n only; a stray CR is whitespace-ish garbage in a token
-            raise TealSyntaxError("carriage return in source line", ln)
+        if line.endswith("\r"):
+            line = line[:-1]  # bufio.ScanLines drops one trailing CR; any other CR is an ordinary character
         try:
             toks, comment = tokens_from_line(line)
         except TealSyntaxError as e:
